@@ -69,8 +69,15 @@ type memObs struct {
 	Admitted []int64 `json:"admitted_in_fresh_window,omitempty"`
 }
 
+const sigMemBig = "adaptive-threshold-above-2^53-rounding-outside-envelope"
+
 func genMem(r *rng.R, id int, total int64) memCase {
 	c := memCase{ID: id}
+	if id == 0 { // witness: thresholds above 2^53, the interpolation in doubles falls below the high-memory threshold
+		c.LowT, c.HighT, c.LowW, c.HighW = 9668711669259933, 9668711669259931, 1, 7
+		c.Mems = []int64{-1, 0, 1, 2, 3, 4, 5, 6, 7, 8, math.MaxInt64}
+		return c
+	}
 	switch r.Intn(4) {
 	case 0:
 		c.HighT = r.Range(1, 20)
@@ -202,7 +209,11 @@ func monitorMem(c memCase, o memObs, rep *emit.Report) (nontrivial bool) {
 				return
 			}
 			if a > float64(c.LowT) || a < float64(c.HighT) {
-				fail("C11_mem_between", "outside-envelope", "mem=%d allowed=%v envelope [%d,%d]", m, a, c.HighT, c.LowT)
+				sig := "outside-envelope"
+				if c.LowT > 1<<53 {
+					sig = sigMemBig
+				}
+				fail("C11_mem_between", sig, "mem=%d allowed=%v envelope [%d,%d]", m, a, c.HighT, c.LowT)
 				return
 			}
 		}
